@@ -230,7 +230,7 @@ impl Env {
              admin_token = \"secret\"\n\
              log_type = \"stderr\"\n\
              log_level = \"off\"\n\
-             service_uri = \"https://localhost:3000/\"\n\
+             service_uri = \"https://krill.example.org:3000/\"\n\
              ta_support_enabled = true\n\
              ta_signer_enabled = true\n\
              roa_aggregate_threshold = {agg}\n\
